@@ -147,7 +147,7 @@ Proof.
     unfold to_entry_val in Ho. rewrite Hov in Ho.
     destruct e; try discriminate.
     (* only the unguarded statement (EJsonDumpsAlways) writes an attribute that is None *)
-    destruct (snd fe) as [ |c nk|en| |df|c|i]; simpl in Hinv; try discriminate.
+    destruct (snd fe) as [ |c nk|en| |df|c|i|i]; simpl in Hinv; try discriminate.
     destruct df; [|discriminate].
     destruct st as [[c'|]| | | |[c'|]]; simpl in Hinv; try discriminate.
     unfold val_ok, aget. rewrite Hov. reflexivity.
@@ -166,7 +166,7 @@ Lemma to_entry_emits k a x g e dc st w :
 Proof.
   intros Hnp Hval Hx. unfold val_ok, aget in Hval. unfold to_entry_val. rewrite Hx in *.
   destruct e; try (exfalso; eapply Hnp; reflexivity).
-  all: destruct dc as [ |c nk|en| |df|c|i]; try discriminate;
+  all: destruct dc as [ |c nk|en| |df|c|i|i]; try discriminate;
        destruct st as [[c'|]| | | |[c'|]]; try discriminate;
        destruct w; try discriminate; simpl; eexists; reflexivity.
 Qed.
